@@ -137,6 +137,13 @@ CHECKS = {
                      "their sockets closed, disconnect reason and time, application readiness.",
                 ref="4 C13", note=NODE_NOTE + "; ownership of an inbound connection starts when its 2001 CEA is "
                 "seen on the wire."),
+    "C17": dict(cat="exploration", tech="lockstep node harness; per-origin window model of answered end-to-end ids "
+                "predicts rejection (5012, no delivery) or delivery for every request",
+                text="Exhaustive request sequences of length 4 (thorough 5) over origin x end-to-end id x T flag x "
+                     "answered-now/deferred plus deferred submissions and DWRs for window sizes 1 and 2, random "
+                     "sequences to length 12 for window sizes 1..4 on one or two connections, so eviction from the "
+                     "window, repeats of pending requests and cross-origin identifiers are exercised.",
+                ref="4 C17", note=NODE_NOTE + "; the window counts every answer the node transmits to the origin."),
 }
 
 NOT_YET = "check not built yet in this round (planned in DESIGN.md section 4); no claim is made"
